@@ -47,13 +47,11 @@ func Rate() api.Builder {
 func NewWorker(concurrency int) api.WorkTriggerer {
 	return func(ctx context.Context, _ *ui.Output, workers *workers.PoolManager, _ options.RunOptions) {
 		pool := workers.NewContinuousPool(concurrency)
-		pool.Start(ctx)
+		workerCtx := pool.Start(ctx)
 
-		// return once triggering has to stop, so that the run can apply its completion
-		// timeout to iterations still in flight instead of waiting for them for ever
-		select {
-		case <-workers.WaitForCompletion():
-		case <-ctx.Done():
-		}
+		// return once triggering has to stop (the context ended or the iteration limit
+		// was reached), like the rate-driven triggers do: the run then waits for the
+		// iterations still in flight, for at most its completion timeout
+		<-workerCtx.Done()
 	}
 }
